@@ -159,10 +159,49 @@ fn usage<T: Transport>(d: &mut AnyDriver<T>, co: &CoRc, steps: usize, keep: &mut
         match d {
             AnyDriver::Blk(b) => match step {
                 0 => {
+                    // The device raises DEVICE_NEEDS_RESET while a blocking request is outstanding
+                    // and answers it (with an error) a little later: the call may only return when
+                    // the device is done with the request's buffers (they live in the call's frame).
+                    co.borrow_mut().responder = Box::new(|_, _, _| Action::Hold);
+                    {
+                        let c2 = co.clone();
+                        let mut n = 0u32;
+                        mmio::set_spin_handler(Some(Box::new(move |_site| {
+                            n += 1;
+                            let mut c = c2.borrow_mut();
+                            match n {
+                                1 => c.dev.borrow_mut().status |= 0x40,
+                                3 => {
+                                    if c.held_count(0) > 0 {
+                                        let mut resp = vec![0u8; 512];
+                                        resp.push(1);
+                                        c.complete_held(0, 0, &resp, 513);
+                                    }
+                                }
+                                x if x > 12 => panic!("LAB-LIVELOCK: blocking read keeps waiting although the device has answered"),
+                                _ => {}
+                            }
+                        })));
+                    }
+                    let mut buf = [0u8; 512];
+                    let r = b.read_blocks(1, &mut buf);
+                    let still = co.borrow_mut().held_count(0);
+                    if still > 0 {
+                        hal::with(|h| h.fault("returned-while-posted", format!("read_blocks returned {:?} while the device still holds {} request(s) whose header, data and status buffers belong to that call (DRIVER_OK set, queue enabled, no reset)", r, still)));
+                        // Let the device finish so that the history can go on.
+                        let mut resp = vec![0u8; 512];
+                        resp.push(1);
+                        co.borrow_mut().complete_held(0, 0, &resp, 513);
+                    }
+                    co.borrow().dev.borrow_mut().status &= !0x40;
+                    co.borrow_mut().responder = cosim::zero_responder(crate::drivers::Kind::Blk);
+                    cosim::install(co);
+                }
+                1 => {
                     let mut buf = [0u8; 512];
                     let _ = b.read_blocks(1, &mut buf);
                 }
-                1 => {
+                2 => {
                     // A non-blocking request which the device never completes.
                     co.borrow_mut().responder = Box::new(|_, _, _| Action::Hold);
                     let mut req = Box::new(virtio_drivers::device::blk::BlkReq::default());
@@ -452,7 +491,7 @@ pub fn run_case(case: &Case) -> Out {
         viols.push(("dealloc-count".to_string(), format!("{} dma_dealloc calls for {} successful allocations", deallocs, allocs)));
     }
     for (k, d) in faults {
-        if k.starts_with("dma") || k.starts_with("queue-memory") {
+        if k.starts_with("dma") || k.starts_with("queue-memory") || k == "returned-while-posted" {
             viols.push((k, d));
         }
     }
